@@ -13,7 +13,7 @@ META = {
     "level": "model_checking",
     "engine": "storage",
     "technique": "TLA+ spec FactStore (implementation-shaped index chain / perspectives refining a flat map) model-checked with TLC; one TLC behaviour per transition plus seeded TLC simulation behaviours with the real compaction depth replayed into LinearStorageProvider/LinearStorage/LinearPerspective/LinearFactIndex (spec->impl conformance)",
-    "text": "TLC explores every storage of up to 3 segments / 3 commands / 3 updates over two fact keys (one a prefix of the other with an empty component) with compaction limit 2 and checks in every state that every committed fact index, every perspective reconstructed at any command of any segment, every bare fact perspective and the open perspective show exactly the flat map obtained by applying the commands' updates in order. One behaviour per transition is replayed into the real memory-backed linear storage; query for every key and query_prefix for every prefix of the universe (key sequences of length <=2 over {'', a, b}, a longer key, two used and one unused name) must return exactly the flat map's facts in ascending key order without deleted facts, on the perspective, on bare fact perspectives, on written indexes and on every committed segment. Seeded TLC simulation with the code's real MAX_FACT_INDEX_DEPTH=16 writes 25-30 chained segments per behaviour (crossing compaction) with mid-segment reopening.",
+    "text": "TLC explores every storage of up to 3 segments / 3 commands / 3 updates over two fact keys (one a prefix of the other with an empty component) with compaction limit 2 and checks in every state that every committed fact index, every perspective reconstructed at any command of any segment, every bare fact perspective, every merge perspective over a written braid index and the open perspective show exactly the flat map obtained by applying the commands' updates in order. One behaviour per transition is replayed into the real memory-backed linear storage; query for every key and query_prefix for every prefix of the universe (key sequences of length <=2 over {'', a, b}, a longer key, two used and one unused name) must return exactly the flat map's facts in ascending key order without deleted facts, on the perspective, on bare fact perspectives, on written indexes and on every committed segment. Seeded TLC simulation with the code's real MAX_FACT_INDEX_DEPTH=16 writes 25-30 chained segments per behaviour (crossing compaction) with mid-segment reopening, bare fact perspectives, written braid indexes and merge perspectives.",
     "note": "Bounds: exhaustive part 2 keys/1 name, <=3 segments, compaction limit 2 (thorough: limit 3, <=4 segments, design level only); simulation 26 fact keys, 200 (thorough 300) steps per behaviour. write() is only called on perspectives without pending updates (as the runtime does). Values are decimal strings; ordering reference is lexicographic order of the key components.",
 }
 
@@ -70,7 +70,7 @@ def run(ctx):
         raise verif.ToolError("TLC emitted no behaviours")
     replay(ctx, vh, beh, "facts-mc")
     r2 = ctx.tlc("MC_FactStore", "MC_FactStore_facts.cfg", timeout=600)
-    ctx.require_actions(storage_util.parse_action_coverage(r2), ["OpenFactsAny", "FInsertAny", "FDeleteAny", "WriteFacts"])
+    ctx.require_actions(storage_util.parse_action_coverage(r2), ["OpenFactsAny", "FInsertAny", "FDeleteAny", "WriteFacts", "OpenMergeAny", "Write", "OpenAny"])
     replay(ctx, vh, r2.replays, "facts-fp")
     nsim, depth = (24, 200) if not ctx.thorough else (160, 300)
     sim = simulate(ctx, "Sim_FactStore.cfg" if not ctx.thorough else "Sim_FactStore_thorough.cfg",
